@@ -2082,6 +2082,26 @@ def c19_cases(tier, seed):
         c.meta["printers_late"] = 1
         c.meta["prints"] = prints
         cases.append(c)
+    # messages handed over when NO read is in progress (after the last read has returned): written directly, at once;
+    # bracketed paste on and off
+    for _ in range(n // 6):
+        mode = rng.choice(["emacs", "vi"])
+        nthreads = rng.choice([1, 2])
+        cmds = gen_c19(rng, mode)[:rng.randint(1, 5)] + [Cmd(["F12"], "noop"), Cmd(["Enter"], "enter")]
+        chunks = [b"".join(p_tty.key_bytes(k) for k in cmd.keys) for cmd in cmds]
+        prints, serial = {}, 0
+        lst = []
+        for _ in range(rng.choice([1, 2, 3])):
+            t = rng.randrange(nthreads)
+            lst.append((t, "<%d:%d:%s>" % (t, serial, rng.choice(["after", "日本", "two\nlines"])) + ("\n" if rng.random() < 0.5 else "")))
+            serial += 1
+        prints[len(cmds) - 1] = lst
+        if rng.random() < 0.4 and len(cmds) > 3:
+            prints[rng.randrange(0, len(cmds) - 2)] = [(0, "<0:%d:during>" % serial)]
+        c = script_case(cmds, mode=mode, chunks=chunks, cols=rng.choice([80, 40]), prompt="> ",
+                        timeout=0 if mode == "vi" else rng.choice(["none", 0]), reads=1)
+        c.meta.update({"printers": nthreads, "prints": prints, "linger": 1, "paste": rng.choice([0, 1]), "no_model": 1})
+        cases.append(c)
     # bursts: several threads are told to print at once, without waiting for one another (the editor may find
     # more than one wake-up pending); which message comes first is not determined, the oracle does not care
     for _ in range(n // 3):
@@ -2180,11 +2200,124 @@ def eval_c19(res, cases_out, stream, width):
     return stats
 
 
+def c19_pair_cases(tier, seed):
+    """a message arriving INSIDE an incremental search or a completion (the sub-loops read keys without looking at the
+    message pipe: the message waits, and is shown when the main loop waits again) -- pairs of the same script with and
+    without the message"""
+    rng = random.Random(seed * 2131 + 47)
+    n = 300 if tier == "thorough" else 30
+    pairs = []
+    for _ in range(n):
+        hist = ["echo hello", "ls -l", "cargo test", "echo bye"]
+        cands = ["foo", "foobar", "food"]
+        cmds = [Cmd([ch], "ins", c=ord(ch), n=1) for ch in p_tty.rand_text(rng, 0, 3, ["a", "b", " "])]
+        inside = []
+        for _ in range(rng.randint(1, 2)):
+            if rng.random() < 0.6:
+                cmds.append(Cmd(["C-r"], "s_start"))
+                a = len(cmds)
+                for ch in rng.choice(["ec", "e", "ls", "ch", "o h"]):
+                    cmds.append(Cmd([ch], "s_char", c=ord(ch)))
+                if rng.random() < 0.4:
+                    cmds.append(Cmd(["C-r"], "s_again_r"))
+                inside.append((a, len(cmds) - 1))
+                cmds.append(Cmd([rng.choice(["Left", "C-e", "C-a"])], "s_exit"))
+            else:
+                cmds += [Cmd([" "], "ins", c=32, n=1), Cmd(["f"], "ins", c=102, n=1), Cmd(["Tab"], "c_tab")]
+                a = len(cmds) - 1
+                for _ in range(rng.randint(0, 2)):
+                    cmds.append(Cmd(["Tab"], "c_tab"))
+                inside.append((a, len(cmds) - 1))
+                cmds.append(Cmd([rng.choice(["x", "Left"])], "accept"))
+            for ch in p_tty.rand_text(rng, 0, 2, ["z", "y"]):
+                cmds.append(Cmd([ch], "ins", c=ord(ch), n=1))
+        cmds += [Cmd(["F12"], "noop"), Cmd(["Enter"], "enter")]
+        chunks = [b"".join(p_tty.key_bytes(k) for k in cmd.keys) for cmd in cmds]
+        # at most ONE message per episode (the channel holds one; a second print would wait for the editor)
+        prints, serial = {}, 0
+        for (a, b) in inside:
+            k = rng.randint(a, b)
+            prints[k] = [(0, "<0:%d:%s>" % (serial, rng.choice(["msg", "inside", "\u65e5\u672c"])) + ("\n" if rng.random() < 0.3 else ""))]
+            serial += 1
+        kw = dict(mode="emacs", chunks=chunks, cols=80, prompt="> ", timeout=rng.choice(["none", 0]), reads=1, history=hist,
+                  cands=cands, completion="circular")
+        c1 = script_case(cmds, **kw)
+        c2 = script_case(cmds, **kw)
+        for c in (c1, c2):
+            c.meta["printers"] = 1
+            c.meta["prints"] = {}
+            # one key per chunk, every key observed: the driver waits for the observations (a message read later from the
+            # pipe would otherwise count as a read of terminal input in its quiescence test)
+            c.meta["sync_keys"] = 1
+        c1.meta["prints"] = prints
+        c1.meta["no_model"] = 1       # (the model's sub-loops step over a message; they do not keep it for later)
+        pairs.append((c1, c2))
+    return pairs
+
+
+def cursor_rows(c, raw, width):
+    """after every chunk: (text of the row the cursor is on, cursor column) as an emulator sees it"""
+    try:
+        data = raw["out"].decode("utf-8")
+    except UnicodeDecodeError:
+        return None
+    scr = vt.Screen(c.cols, width)
+    out, fed = [], 0
+    for m in raw["marks"]:
+        scr.feed([ord(ch) for ch in data[:0]])      # (no-op: keeps the interface in one place)
+        piece = raw["out"][fed:m]
+        try:
+            scr.feed([ord(ch) for ch in piece.decode("utf-8")])
+        except UnicodeDecodeError:
+            return None
+        fed = m
+        r, col = scr.cursor()
+        rows = scr.text_rows(r)
+        out.append((rows[0] if rows else "", col))
+    return out
+
+
+def eval_c19_pairs(res, pairs, outs, width):
+    stats = {"pairs": 0, "messages_inside_a_sub_loop": 0}
+    for (c1, c2), (o1, o2) in zip(pairs, zip(outs[0::2], outs[1::2])):
+        (_, impl1, _, raw1), (_, impl2, _, raw2) = o1, o2
+        stats["pairs"] += 1
+        stats["messages_inside_a_sub_loop"] += len(c1.meta["prints"])
+        line = c1.model_line(c1.chunks)
+        r1, r2 = cursor_rows(c1, raw1, width), cursor_rows(c2, raw2, width)
+        if r1 is None or r2 is None:
+            res.oracle_failures.append({"stream": "printer-subloop", "case": line, "keys": c1.keys, "why": "output is not UTF-8"})
+            continue
+        rl1 = [l for l in raw1["obs"] if l.startswith("R ")]
+        rl2 = [l for l in raw2["obs"] if l.startswith("R ")]
+        if rl1 != rl2:
+            res.oracle_failures.append({"stream": "printer-subloop", "case": line, "keys": c1.keys, "prints": {str(k): v for k, v in c1.meta["prints"].items()},
+                                        "why": "a message arriving inside a search / completion changed what the read returns: %s vs %s" % (rl1, rl2)})
+            continue
+        for k, (a, b) in enumerate(zip(r1, r2)):
+            if a != b:
+                res.oracle_failures.append({"stream": "printer-subloop", "case": line, "keys": c1.keys,
+                                            "prints": {str(k2): v for k2, v in c1.meta["prints"].items()},
+                                            "why": ("after chunk %d the row with the cursor shows %r (column %d); without the message handed over "
+                                                    "at chunks %s it shows %r (column %d): a message must not disturb what the prompt row shows "
+                                                    "(inside a search or completion it waits until the main loop reads again)"
+                                                    % (k - 1, a[0], a[1], sorted(c1.meta["prints"]), b[0], b[1]))})
+                break
+        res.nontrivial.add(line)
+    return stats
+
+
 def c19_corr(res, exe, driver, tier, seed, tmp):
     cases = c19_cases(tier, seed)
     out = run_tty_cases(res, exe, driver, cases, tmp, "printer")
     width = vt.Widths(ud_tables())
     stats = eval_c19(res, out, "printer", width)
+    pairs = c19_pair_cases(tier, seed)
+    flat = [c for pr in pairs for c in pr]
+    pout = run_tty_cases(res, exe, driver, flat, tmp, "printer-subloop")
+    stats["sub_loops"] = eval_c19_pairs(res, pairs, pout, width)
+    stats2 = eval_c19(res, [o for o in pout[0::2]], "printer-subloop", width)
+    stats["sub_loops"]["messages_shown_once"] = stats2["messages"]
     res.distribution.update({"oracle": stats, "scripts": len(cases)})
     res.rule = ("printer: 1-3 printer threads in the child, each with its own ExternalPrinter, print messages (short, multi-byte, "
                 "longer than the window, with embedded and trailing line breaks) on command from the driver at quiescent points of "
@@ -2192,6 +2325,9 @@ def c19_corr(res, exe, driver, tier, seed, tmp):
                 "written is compared with the model (Editor.external_print + drain_prints: the message handling of the main loop). "
                 "(ii) an independent emulator interprets everything written: every message must be on the terminal exactly once and "
                 "whole, messages of one thread in the order sent, each print call must have returned Ok, and each read must return "
-                "exactly the text that was being edited.")
+                "exactly the text that was being edited. printer-subloop: pairs of one script with and without a message handed "
+                "over INSIDE an incremental search or a circular completion (implementation only: the model's sub-loops do not "
+                "keep a message for later): after every chunk the row the cursor is on shows the same text and column in both "
+                "runs, both reads return the same line, and the message is on the terminal exactly once.")
     for c, impl, model, raw in out[:3]:
         res.samples.append({"keys": c.keys, "prints": {str(k): v for k, v in c.meta["prints"].items()}, "impl": " ## ".join(impl)[:300]})
